@@ -103,6 +103,39 @@ fn exec(desc: &Value, tr: &mut Tracer) -> anyhow::Result<()> {
         let (pts, exact) = pts_json(&speed_points_of(&p, &["speed_points"]), os, vs);
         tr.emit(json!({"ev":"Profile","via":"split1","ok":ok,"pts":pts,"exact":exact}));
     }
+    // path 2c: the per-train-type layout (Link.speed_sets): the train's own type carries the restrictions, the other
+    // types carry decoys (shifted / tighter restrictions, opposite head/tail flag) that must not influence the profile;
+    // (PathTpc::recalc_speeds is not exercised: it has no caller and walks the trailing dummy link point, so it
+    // errs on every per-type network — an observation outside the property's anchors)
+    {
+        let mut nj = net_json.clone();
+        for (k, l) in nj.as_array_mut().unwrap().iter_mut().enumerate().skip(1) {
+            let own = l["speed_set"].clone();
+            let mut decoy = own.clone();
+            if let Some(ls) = decoy["speed_limits"].as_array_mut() {
+                for x in ls.iter_mut() {
+                    x["speed"] = json!(x["speed"].as_f64().unwrap() * 0.5);
+                }
+            }
+            decoy["is_head_end"] = json!(!own["is_head_end"].as_bool().unwrap_or(false));
+            decoy["speed_params"] = json!([]);
+            let mut m = serde_json::Map::new();
+            m.insert("Freight".into(), own);
+            m.insert(if k % 2 == 0 { "Passenger" } else { "Intermodal" }.into(), decoy.clone());
+            m.insert("Commuter".into(), decoy);
+            l["speed_sets"] = Value::Object(m);
+            l["speed_set"] = Value::Null;
+        }
+        match Network::from_json(nj.to_string()) {
+            Ok(net2) => {
+                let mut p = PathTpc::new(tp);
+                let r = p.extend(&net2, &route);
+                let (pts, exact) = pts_json(&speed_points_of(&p, &["speed_points"]), os, vs);
+                tr.emit(json!({"ev":"Profile","via":"bytype","ok":r.is_ok(),"pts":pts,"exact":exact}));
+            }
+            Err(e) => tr.emit(json!({"ev":"Profile","via":"bytype","ok":false,"pts":[],"exact":true,"msg":errtxt(&e)})),
+        }
+    }
     // path 3: set-speed train sim builder
     {
         let tsb = TrainSimBuilder::new("t".into(), tc.clone(), Consist::default(), None, None, None);
